@@ -28,7 +28,17 @@ for log in logs:
         if m:
             observed.setdefault(m.group(1), {})[m.group(2)] = (m.group(3) or m.group(4))[:160]
 
-WAVE = {"m1": "1 (plain)", "m2": "1 (plain)", "m3": "2 (needs something specific)", "m4": "2 (needs something specific)", "m5": "3 (adversarial: told what kind of harness to evade)", "m6": "3 (adversarial: told what kind of harness to evade)"}
+WAVE = {"m1": "1 (plain)", "m2": "1 (plain)", "m3": "2 (needs something specific)", "m4": "2 (needs something specific)", "m5": "3 (adversarial: told what kind of harness to evade)", "m6": "3 (adversarial: told what kind of harness to evade)", "m7": "4 (adversarial: told also what round 3 added, hash collisions and 4 GiB inputs excluded)", "m8": "4 (adversarial: told also what round 3 added, hash collisions and 4 GiB inputs excluded)"}
+
+NOTES = {
+    "C01-m5": "NOT CAUGHT, stated limit (DESIGN.md 6): wrong verdict only on a 32-bit fingerprint collision with the previously accepted input",
+    "C09-m5": "NOT CAUGHT, stated limit (DESIGN.md 6): normalisation skipped only on a 32-bit fingerprint collision with the previous result",
+    "C15-m5": "NOT CAUGHT, stated limit (DESIGN.md 6): segments equated only on a 32-bit fingerprint collision",
+    "C09-m6": "quick tier cannot reach it (needs an input of 4 GiB); caught by the THOROUGH tier of C09 (one path beyond 4 GiB per family; confirmed by replaying that case against the change: sig big:normalized_segments)",
+    "C05-m7": "quick tier cannot reach it (needs a buffer above 16 MiB); caught by the THOROUGH tier of C05 (17 MiB+5 / 33 MiB+1 values; confirmed by replaying that case against the change: sig set_query:query-differs)",
+    "C20-m5": "not a violation of C20 as stated: normalized_segments() is not among the accessors the statement lists and allocates by design beyond 16 live segments; the checks do not constrain it",
+    "C14-m8": "a reference -> full-value conversion (TryFrom<&UriRef> for &Uri ...) is refused for schemes of 65 535 bytes and more: that is C13's subject (caught there), not one of C14's textual routes",
+}
 
 
 def confirmation(pid, m):
@@ -82,7 +92,9 @@ for d in sorted(glob.glob(os.path.join(ROOT, "seeded", "C*-m*"))):
         "inconclusive": sorted([c for c, rc in res.items() if rc not in (0, 1)]),
         "first_failure_reported": observed.get(key, old.get("first_failure_reported", {})),
     }
-    if old.get("note"):
+    if key in NOTES:
+        meta["note"] = NOTES[key]
+    elif old.get("note"):
         meta["note"] = old["note"]
     json.dump(meta, open(mp, "w"), indent=1, ensure_ascii=False)
     print(key, "caught by", meta["caught_by"], "missed by", meta["not_caught_by"], meta["inconclusive"])
